@@ -144,7 +144,21 @@ func (m *Machine) verifyOnce() {
 		v := m.ts.FreshValue("fv."+fv.Name(), fv.Type())
 		m.markOld(v)
 		m.assumeWellFormed(st, fv.Type(), v)
+		if p, ok := v.(*Ptr); ok {
+			// captured variables live in cells that exist for as long as the closure does
+			st.assume(m.ctx.Neq(p.Ref, m.ctx.Int(0)))
+		}
 		fvals = append(fvals, v)
+	}
+	// distinct captured variables are distinct cells
+	for i := range fvals {
+		for j := i + 1; j < len(fvals); j++ {
+			pi, ok1 := fvals[i].(*Ptr)
+			pj, ok2 := fvals[j].(*Ptr)
+			if ok1 && ok2 && pi.Mem == pj.Mem {
+				st.assume(m.ctx.Neq(pi.Ref, pj.Ref))
+			}
+		}
 	}
 	fr := m.pushFrame(st, fn, args, fvals, nil, 2)
 	fr.entry = m.bindParams(st, fn, args, fvals)
@@ -409,7 +423,29 @@ func (m *Machine) applyContract(st *State, fr *Frame, instr ssa.Instruction, fc 
 	if !fc.Pure && !st.pure {
 		m.contractHavoc(st, fr, fc, name, bind, fn, args)
 	}
-	// results
+	// results: the callee may have allocated objects we do not see, and these may retain its arguments
+	m.ctx.nfresh += 16
+	retains := !fc.Pure && len(fc.Assigns) > 0
+	for i := 0; i < sig.Results().Len(); i++ {
+		if m.typeHasRefs(sig.Results().At(i).Type(), 0) {
+			retains = true
+		}
+	}
+	if retains && !st.pure {
+		for i, a := range args {
+			if i < sig.Params().Len() {
+				m.escapeValue(st, sig.Params().At(i).Type(), a)
+			}
+		}
+		if fn != nil && sig.Recv() != nil && len(args) > 0 {
+			m.escapeValue(st, sig.Recv().Type(), args[0])
+		}
+		for _, v := range fvals {
+			if p, ok := v.(*Ptr); ok {
+				m.escapeRef(st, p.Ref)
+			}
+		}
+	}
 	var rets []Value
 	definable := map[int]bool{}
 	for i := 0; i < sig.Results().Len(); i++ {
@@ -1204,4 +1240,24 @@ func (m *Machine) obviouslyContradicts(pc []*Term, a *Term) bool {
 	}
 	chk(a)
 	return bad
+}
+
+// typeHasRefs: values of type t can hold references to objects (other than byte/number arrays).
+func (m *Machine) typeHasRefs(t types.Type, depth int) bool {
+	if depth > 4 {
+		return true
+	}
+	switch u := t.Underlying().(type) {
+	case *types.Pointer, *types.Interface, *types.Signature, *types.Map, *types.Chan:
+		return true
+	case *types.Slice:
+		return m.typeHasRefs(u.Elem(), depth+1)
+	case *types.Struct:
+		for i := 0; i < u.NumFields(); i++ {
+			if m.typeHasRefs(u.Field(i).Type(), depth+1) {
+				return true
+			}
+		}
+	}
+	return false
 }
